@@ -9,7 +9,7 @@ use serde_json::{json, Value};
 pub static ENGINE: Engine = Engine {
     prop: "C18",
     level: "exploration",
-    rule: "the real random_graph_gen binary with its random source scripted through the verif-hooks feature: for every (V, -u) whose candidate edge list has m <= 6 entries (directed V <= 3, undirected V <= 4) ALL m! Fisher-Yates choice vectors x every E in 0..m+1 x {edge list, --dot}: exactly E distinct edges, endpoints distinct and among v0..v(V-1), no reversed pair under -u, E > m refused with non-zero exit and no edge printed, and the number of distinct outputs over all vectors equals m!/(m-E)! (proof that every choice is owned). For larger candidate lists (V=4,5 directed; V=5,6 undirected; m = 10..20) every ORDERED SELECTION of E <= 2 (3) candidate edges is forced by a constructed choice vector. -o FILE onto an existing longer file = stdout of the same request. --complete x V in 0..5 x -u = all pairs. --convert: every edge list <= 3 over {a,b,c} x -u reproduces the list (reversed duplicates merged under -u). --colors k: every loop-free graph on <= 4 named vertices (two name families, one with names that are prefixes of each other) x k in 0..3: the output has a clique choosing one (vertex,colour) per input vertex iff the input is k-colourable (brute force). Labelled supplement: un-scripted runs with fresh entropy (sampled, not part of the claim). distinct = distinct (argv, script, stdout)",
+    rule: "the real random_graph_gen binary with its random source scripted through the verif-hooks feature: for every (V, -u) whose candidate edge list has m <= 6 entries (directed V <= 3, undirected V <= 4) ALL m! Fisher-Yates choice vectors x every E in 0..m+1 x {edge list, --dot}: exactly E distinct edges, endpoints distinct and among v0..v(V-1), no reversed pair under -u, E > m refused with non-zero exit and no edge printed, and the number of distinct outputs over all vectors equals m!/(m-E)! (proof that every choice is owned). For larger candidate lists (V=4,5 directed; V=5,6 undirected; m = 10..20) every ORDERED SELECTION of E <= 2 (3) candidate edges is forced by a constructed choice vector. -o FILE onto an existing longer file = stdout of the same request. --complete x V in 0..5 x -u = all pairs. --convert: every edge list <= 3 over {a,b,c} x -u x {csv, --dot} reproduces the list (reversed duplicates merged under -u). --colors k: every loop-free graph on <= 4 named vertices (two name families, one with names that are prefixes of each other) x k in 0..3: the output has a clique choosing one (vertex,colour) per input vertex iff the input is k-colourable (brute force). Labelled supplement: un-scripted runs with fresh entropy (sampled, not part of the claim). distinct = distinct (argv, script, stdout)",
     assumptions: &["the hook replays RSBDD_VERIF_RNG as the u32 values drawn by rand 0.8's shuffle (widening-multiply index sampling); a mismatch shows up as a wrong number of distinct outputs", "k-colourability is defined on loop-free graphs; isolated vertices cannot be expressed in an edge list"],
     max_shards: 64,
     run,
@@ -327,7 +327,7 @@ fn convert_case(edges: &[(String, String)], u: bool, colors: Option<usize>) -> V
     json!({"part": "convert", "edges": edges.iter().map(|(a, b)| vec![a.clone(), b.clone()]).collect::<Vec<_>>(), "undirected": u, "colors": colors})
 }
 
-fn check_convert(ctx: &mut Ctx, edges: &[(String, String)], u: bool) {
+fn check_convert(ctx: &mut Ctx, edges: &[(String, String)], u: bool, dot: bool) {
     ctx.begin_case(|| convert_case(edges, u, None));
     ctx.count("evaluations", 1);
     let csv: String = edges.iter().map(|(a, b)| format!("{a},{b}\n")).collect();
@@ -336,8 +336,11 @@ fn check_convert(ctx: &mut Ctx, edges: &[(String, String)], u: bool) {
     if u {
         args.push("-u".into());
     }
+    if dot {
+        args.push("--dot".into());
+    }
     let r = run_bin("random_graph_gen", &args, None, &[]);
-    let key = format!("{TAG} --convert {:?}{}", csv, if u { " -u" } else { "" });
+    let key = format!("{TAG} --convert {:?}{}{}", csv, if u { " -u" } else { "" }, if dot { " --dot" } else { "" });
     ctx.distinct(&(&csv, u, &r.stdout));
     if !r.ok() {
         ctx.violation(key, format!("failed: {} {}", r.describe(), r.err_tail()), convert_case(edges, u, None));
@@ -350,7 +353,7 @@ fn check_convert(ctx: &mut Ctx, edges: &[(String, String)], u: bool) {
             want.push((a.clone(), b.clone()));
         }
     }
-    match parse_edges(&r.out(), false, u) {
+    match parse_edges(&r.out(), dot, u) {
         Err(e) => ctx.violation(key, e, convert_case(edges, u, None)),
         Ok(got) => {
             if got != want {
@@ -434,9 +437,11 @@ fn convert_sweep(ctx: &mut Ctx) {
         for d in lists {
             let edges: Vec<(String, String)> = d.iter().map(|i| pairs[*i].clone()).collect();
             for u in [false, true] {
-                idx += 1;
-                if ctx.mine(idx) {
-                    check_convert(ctx, &edges, u);
+                for dot in [false, true] {
+                    idx += 1;
+                    if ctx.mine(idx) {
+                        check_convert(ctx, &edges, u, dot);
+                    }
                 }
             }
         }
@@ -507,7 +512,10 @@ fn replay(ctx: &mut Ctx, c: &Value) {
         }
         Some("convert") => match c["colors"].as_u64() {
             Some(k) => check_colors(ctx, &edges(), k as usize),
-            None => check_convert(ctx, &edges(), c["undirected"].as_bool().unwrap_or(false)),
+            None => {
+                check_convert(ctx, &edges(), c["undirected"].as_bool().unwrap_or(false), false);
+                check_convert(ctx, &edges(), c["undirected"].as_bool().unwrap_or(false), true);
+            }
         },
         Some("generate") => {
             let script: Vec<u32> = c["script"].as_array().map(|a| a.iter().map(|x| x.as_u64().unwrap_or(0) as u32).collect()).unwrap_or_default();
